@@ -181,18 +181,9 @@ impl Builder {
         }
         ls
     }
-    /// Rust source of `fn run_<name>(inputs, ticks) -> per tick per sink strings`
-    fn emit(&self, name: &str) -> String {
+    /// the DFIR program text (the body of the `dfir_syntax!` invocation)
+    fn body(&self) -> String {
         let mut s = String::new();
-        let _ = writeln!(s, "#[allow(unused_variables, unused_mut, clippy::all)]");
-        let _ = writeln!(s, "pub fn run_{name}(inputs: &[Vec<Vec<u64>>], ticks: usize) -> Vec<Vec<Vec<String>>> {{");
-        for i in 0..self.nsrc {
-            let _ = writeln!(s, "    let (s{i}, r{i}) = dfir_rs::util::unbounded_channel::<u64>();");
-        }
-        for k in 0..self.sinks.len() {
-            let _ = writeln!(s, "    let o{k}: Out = Default::default(); let o{k}c = o{k}.clone();");
-        }
-        let _ = writeln!(s, "    let mut df = dfir_rs::dfir_syntax! {{");
         for n in &self.nodes {
             let id = n.id;
             if n.ins.is_empty() {
@@ -213,6 +204,21 @@ impl Builder {
         for (k, sk) in self.sinks.iter().enumerate() {
             let _ = writeln!(s, "        {} -> for_each(|x: {}| o{k}c.borrow_mut().push(HV::show(&x)));", self.label((sk.node, sk.port)), self.ty((sk.node, sk.port)).rust());
         }
+        s
+    }
+    /// Rust source of `fn run_<name>(inputs, ticks) -> per tick per sink strings`
+    fn emit(&self, name: &str) -> String {
+        let mut s = String::new();
+        let _ = writeln!(s, "#[allow(unused_variables, unused_mut, clippy::all)]");
+        let _ = writeln!(s, "pub fn run_{name}(inputs: &[Vec<Vec<u64>>], ticks: usize) -> Vec<Vec<Vec<String>>> {{");
+        for i in 0..self.nsrc {
+            let _ = writeln!(s, "    let (s{i}, r{i}) = dfir_rs::util::unbounded_channel::<u64>();");
+        }
+        for k in 0..self.sinks.len() {
+            let _ = writeln!(s, "    let o{k}: Out = Default::default(); let o{k}c = o{k}.clone();");
+        }
+        let _ = writeln!(s, "    let mut df = dfir_rs::dfir_syntax! {{");
+        s.push_str(&self.body());
         let _ = writeln!(s, "    }};");
         let _ = writeln!(s, "    let mut res = Vec::new();");
         let _ = writeln!(s, "    for t in 0..ticks {{");
@@ -298,7 +304,7 @@ fn unary_menu(i: &Out) -> Vec<(String, String, Ty, bool, usize, bool)> {
         v.push((format!("unique {}", pe.w()), format!("unique::<{}>()", pe.l()), t.clone(), o, e, lz || pe == Pe::S));
     }
     v.push(("persist".into(), format!("persist::<'static, {tr}>()"), t.clone(), o, e * 6, false));
-    v.push(("multiset_delta".into(), "multiset_delta()".into(), t.clone(), o, e, true));
+    v.push(("multiset_delta".into(), format!("map(|x: {tr}| x) -> multiset_delta() -> map(|x: {tr}| x)"), t.clone(), o, e, true));
     if t.sortable() {
         v.push(("sort".into(), "sort()".into(), t.clone(), true, e, false));
         v.push(("sort_by_key self".into(), format!("sort_by_key(|x: &{tr}| x)"), t.clone(), true, e, false));
@@ -312,7 +318,7 @@ fn unary_menu(i: &Out) -> Vec<(String, String, Ty, bool, usize, bool)> {
         }
     }
     for pe in PES {
-        for f in ["sum", "poly", "cnt", "max", "first", "last"] {
+        for f in ["sum", "poly", "max", "last"] {
             if acc_needs_n(f) && *t != N {
                 continue;
             }
@@ -340,7 +346,7 @@ fn unary_menu(i: &Out) -> Vec<(String, String, Ty, bool, usize, bool)> {
         if let P(k, val) = t {
             if **val == N && k.depth() <= 2 {
                 let kr = k.rust();
-                for f in ["sum", "poly", "cnt", "max"] {
+                for f in ["sum", "poly"] {
                     if acc_order_sensitive(f) && !o {
                         continue;
                     }
@@ -414,7 +420,7 @@ fn accum_code(a: &str) -> String {
         _ => panic!(),
     }
 }
-const ACCUMS: [&str; 6] = ["fold:sum", "fold:poly", "reduce:sum", "reduce:max", "foldfrom:sum", "reduce:poly"];
+const ACCUMS: [&str; 3] = ["fold:poly", "reduce:sum", "foldfrom:sum"];
 
 /// binary operator instances applicable to (a, b): (desc, code, in-port labels, type, ordered, est, lazy_stateful)
 /// `sc` = both inputs are free of lazily evaluated stateful operators (needed by short-circuiting operators)
@@ -519,6 +525,8 @@ struct ProgOut {
     variant: Option<(Vec<String>, Builder)>,
     /// blocking-input oracle tag (C23), e.g. "fold_sum", "anti_join"
     oracle: String,
+    /// model description of the original when it is not the node-by-node one (fused chains, F22)
+    desc_override: Option<Vec<String>>,
 }
 
 /// bring a u64 source to the type an operator instance needs
@@ -580,7 +588,7 @@ fn unit_programs(out: &mut Vec<ProgOut>, rng: &mut Rng) {
                 let o = b.un(&s, &m.0, &m.1, m.2.clone(), m.3, m.4, m.5);
                 let o = ctx_out(&mut b, o, ctx);
                 b.sink(&o);
-                out.push(ProgOut { name: format!("u{}", out.len()), kind: "unit", b, variant: None, oracle: String::new() });
+                out.push(ProgOut { name: format!("u{}", out.len()), kind: "unit", b, variant: None, oracle: String::new(), desc_override: None });
             }
         }
     }
@@ -601,7 +609,7 @@ fn unit_programs(out: &mut Vec<ProgOut>, rng: &mut Rng) {
                     let o = ctx_out(&mut b, o, if ctx == 1 { 2 } else { 0 });
                     b.sink(&o);
                 }
-                out.push(ProgOut { name: format!("u{}", out.len()), kind: "unit", b, variant: None, oracle: String::new() });
+                out.push(ProgOut { name: format!("u{}", out.len()), kind: "unit", b, variant: None, oracle: String::new(), desc_override: None });
             }
         }
     }
@@ -618,7 +626,7 @@ fn unit_programs(out: &mut Vec<ProgOut>, rng: &mut Rng) {
             if !seen.insert(m.0.clone()) {
                 continue;
             }
-            for ctx in 0..3 {
+            for ctx in 0..2 {
                 let mut b = Builder::default();
                 let a = b.source();
                 let a = prep(&mut b, &a, wa, rng);
@@ -631,7 +639,7 @@ fn unit_programs(out: &mut Vec<ProgOut>, rng: &mut Rng) {
                 let o = b.multi(&[(&a, m.2[0]), (&c, m.2[1])], &m.0, &m.1, m.3.clone(), m.4, m.5, m.6);
                 let o = ctx_out(&mut b, o, ctx);
                 b.sink(&o);
-                out.push(ProgOut { name: format!("u{}", out.len()), kind: "unit", b, variant: None, oracle: String::new() });
+                out.push(ProgOut { name: format!("u{}", out.len()), kind: "unit", b, variant: None, oracle: String::new(), desc_override: None });
             }
         }
     }
@@ -644,7 +652,7 @@ fn unit_programs(out: &mut Vec<ProgOut>, rng: &mut Rng) {
         for t in ts {
             b.sink(&t);
         }
-        out.push(ProgOut { name: format!("u{}", out.len()), kind: "unit", b, variant: None, oracle: String::new() });
+        out.push(ProgOut { name: format!("u{}", out.len()), kind: "unit", b, variant: None, oracle: String::new(), desc_override: None });
     }
 }
 
@@ -789,13 +797,13 @@ fn blocking_programs(out: &mut Vec<ProgOut>, rng: &mut Rng, count: usize) {
                     "sort" => ("sort".into(), "sort()".into()),
                     "persist" => ("persist".into(), "persist::<'static, u64>()".into()),
                     "unique" => (format!("unique {}", pe.w()), format!("unique::<{}>()", pe.l())),
-                    "multiset_delta" => ("multiset_delta".into(), "multiset_delta()".into()),
+                    "multiset_delta" => ("multiset_delta".into(), "map(|x: u64| x) -> multiset_delta() -> map(|x: u64| x)".into()),
                     _ => (format!("lattice_reduce {}", pe.w()), format!("map(|x: u64| Max::new(x)) -> lattice_reduce::<{}>() -> map(|m: Max<u64>| m.into_reveal())", pe.l())),
                 };
                 let ordered = kind == "sort" || i.ordered;
                 let o = b.un(&i, &desc, &code, N, ordered, 36, false);
                 b.sink(&o);
-                out.push(ProgOut { name: format!("b{c}"), kind: "blocking", b, variant: None, oracle: desc });
+                out.push(ProgOut { name: format!("b{c}"), kind: "blocking", b, variant: None, oracle: desc, desc_override: None });
             }
             "fold_keyed" | "reduce_keyed" => {
                 let k = prep(&mut b, &s0, "KN", rng);
@@ -808,7 +816,7 @@ fn blocking_programs(out: &mut Vec<ProgOut>, rng: &mut Rng, count: usize) {
                 };
                 let o = b.un(&i, &desc, &code, p(N, N), false, 36, false);
                 b.sink(&o);
-                out.push(ProgOut { name: format!("b{c}"), kind: "blocking", b, variant: None, oracle: desc });
+                out.push(ProgOut { name: format!("b{c}"), kind: "blocking", b, variant: None, oracle: desc, desc_override: None });
             }
             _ => {
                 let s1 = b.source();
@@ -828,7 +836,7 @@ fn blocking_programs(out: &mut Vec<ProgOut>, rng: &mut Rng, count: usize) {
                 let m = menu.iter().find(|m| m.0 == want).unwrap_or_else(|| panic!("{want}")).clone();
                 let o = b.multi(&[(&a, m.2[0]), (&c2, m.2[1])], &m.0, &m.1, m.3, m.4, m.5, m.6);
                 b.sink(&o);
-                out.push(ProgOut { name: format!("b{c}"), kind: "blocking", b, variant: None, oracle: want });
+                out.push(ProgOut { name: format!("b{c}"), kind: "blocking", b, variant: None, oracle: want, desc_override: None });
             }
         }
     }
@@ -850,6 +858,12 @@ fn perturb(b: &mut Builder, rng: &mut Rng) -> Option<String> {
     let (idx, k) = *rng.pick(&cands);
     let stage = *rng.pick(&["identity", "map_id", "tee1", "union1", "tee_null", "union_empty", "tee_null", "union_empty"]);
     let target_id = b.nodes[idx].id;
+    Some(perturb_at(b, target_id, k, stage))
+}
+
+/// insert `stage` in front of input `k` of node `target_id`
+fn perturb_at(b: &mut Builder, target_id: usize, k: usize, stage: &str) -> String {
+    let idx = b.nodes.iter().position(|n| n.id == target_id).unwrap();
     let r = b.nodes[idx].ins[k];
     let ty = b.ty(r);
     let tr = ty.rust();
@@ -879,7 +893,66 @@ fn perturb(b: &mut Builder, rng: &mut Rng) -> Option<String> {
         }
     }
     b.nodes = nodes;
-    Some(format!("perturb {stage} {fresh} {target_id} {k}"))
+    format!("perturb {stage} {fresh} {target_id} {k}")
+}
+
+
+/// F22 witnesses: a lazily evaluated stateful operator fused (same subgraph) with a consumer that
+/// stops pulling early; the variant separates them with a handoff (tee + dropped branch).
+fn finding_programs(out: &mut Vec<ProgOut>) {
+    let kv = |b: &mut Builder, i: &Out| b.un(i, "map kv3", "map(|x: u64| { let h = hv(&x); (h % 3, h) })", p(N, N), true, i.est, false);
+    // (a) enumerate::<'static> -> chain_first_n(1)
+    {
+        let mut b = Builder::default();
+        let s0 = b.source();
+        let s1 = b.source();
+        let e = b.un(&s0, "enumerate static", "enumerate::<'static>() -> map(|x: (usize, u64)| (x.0 as u64, x.1))", p(N, N), true, 6, true);
+        let k = kv(&mut b, &s1);
+        let c = b.multi(&[(&e, "0"), (&k, "1")], "chain_first_n 1", "chain_first_n(1)", p(N, N), true, 1, false);
+        b.sink(&c);
+        let cid = c.node;
+        let mut v = b.clone();
+        v.next_id = b.next_id + 100;
+        let line = perturb_at(&mut v, cid, 0, "tee_null");
+        let _ = line;
+        let vl: Vec<String> = v.desc_lines().into_iter().filter(|l| l.starts_with("node ")).map(|l| format!("v{l}")).collect();
+        let d = vec!["node 0 source 0 <-".to_string(), "node 1 source 1 <-".into(), "node 3 map kv3 <- 1.0".into(), "node 4 fused_enum_chain_first_n 1 <- 0.0 3.0".into(), "sink 0 4.0 seq".into()];
+        out.push(ProgOut { name: "f0".into(), kind: "finding", b, variant: Some((vl, v)), oracle: "finding:lazy-shortcircuit".into(), desc_override: Some(d) });
+    }
+    // (b) unique::<'static> -> [input]cross_singleton (single side empty in some ticks)
+    {
+        let mut b = Builder::default();
+        let s0 = b.source();
+        let s1 = b.source();
+        let u = b.un(&s0, "unique static", "unique::<'static>()", N, true, 6, true);
+        let c = b.multi(&[(&u, "input"), (&s1, "single")], "cross_singleton tick", "cross_singleton::<'tick>()", p(N, N), true, 6, false);
+        b.sink(&c);
+        let cid = c.node;
+        let mut v = b.clone();
+        v.next_id = b.next_id + 100;
+        let line = perturb_at(&mut v, cid, 0, "tee_null");
+        let _ = line;
+        let vl: Vec<String> = v.desc_lines().into_iter().filter(|l| l.starts_with("node ")).map(|l| format!("v{l}")).collect();
+        let d = vec!["node 0 source 0 <-".to_string(), "node 1 source 1 <-".into(), "node 3 fused_unique_cross_singleton <- 0.0 1.0".into(), "sink 0 3.0 seq".into()];
+        out.push(ProgOut { name: "f1".into(), kind: "finding", b, variant: Some((vl, v)), oracle: "finding:lazy-shortcircuit".into(), desc_override: Some(d) });
+    }
+    // (c) unique::<'static> -> [signal]defer_signal
+    {
+        let mut b = Builder::default();
+        let s0 = b.source();
+        let s1 = b.source();
+        let u = b.un(&s1, "unique static", "unique::<'static>()", N, true, 6, true);
+        let c = b.multi(&[(&s0, "input"), (&u, "signal")], "defer_signal", "defer_signal()", N, true, 36, false);
+        b.sink(&c);
+        let cid = c.node;
+        let mut v = b.clone();
+        v.next_id = b.next_id + 100;
+        let line = perturb_at(&mut v, cid, 1, "tee_null");
+        let _ = line;
+        let vl: Vec<String> = v.desc_lines().into_iter().filter(|l| l.starts_with("node ")).map(|l| format!("v{l}")).collect();
+        let d = vec!["node 0 source 0 <-".to_string(), "node 1 source 1 <-".into(), "node 3 fused_unique_defer_signal <- 0.0 1.0".into(), "sink 0 3.0 seq".into()];
+        out.push(ProgOut { name: "f2".into(), kind: "finding", b, variant: Some((vl, v)), oracle: "finding:lazy-shortcircuit".into(), desc_override: Some(d) });
+    }
 }
 
 fn with_variant(mut po: ProgOut, rng: &mut Rng, nperturb: usize) -> ProgOut {
@@ -917,26 +990,27 @@ fn main() {
     let nunit = progs.len();
     // variants for every 4th unit program
     let mut rngv = root.fork(2);
-    let mut progs: Vec<ProgOut> = progs.into_iter().enumerate().map(|(i, po)| if i % 4 == 0 { let n = 1 + (i / 4) % 2; with_variant(po, &mut rngv, n) } else { po }).collect();
+    let mut progs: Vec<ProgOut> = progs.into_iter().enumerate().map(|(i, po)| if i % 5 == 0 { let n = 1 + (i / 5) % 2; with_variant(po, &mut rngv, n) } else { po }).collect();
     // random programs, each with a variant
-    let nrand = 120 * scale / 100;
+    let nrand = 90 * scale / 100;
     for i in 0..nrand {
         let mut rng = root.fork(1000 + i as u64);
         let steps = 2 + (i % 9);
         let b = random_program(&mut rng, steps);
-        let po = ProgOut { name: format!("r{i}"), kind: "random", b, variant: None, oracle: String::new() };
+        let po = ProgOut { name: format!("r{i}"), kind: "random", b, variant: None, oracle: String::new(), desc_override: None };
         let np = rng.range(1, 3) as usize;
         progs.push(with_variant(po, &mut rng, np));
     }
     // blocking-input pipelines (C23), each second one with a variant
-    let nblock = 105 * scale / 100;
+    let nblock = 90 * scale / 100;
     let mut bl = vec![];
     let mut rngb = root.fork(3);
     blocking_programs(&mut bl, &mut rngb, nblock);
     for (i, po) in bl.into_iter().enumerate() {
-        progs.push(if i % 2 == 0 { with_variant(po, &mut rngb, 2) } else { po });
+        progs.push(if i % 3 == 0 { with_variant(po, &mut rngb, 2) } else { po });
     }
     let _ = nunit;
+    finding_programs(&mut progs);
 
     let mut src = String::new();
     let _ = writeln!(src, "// generated by build.rs -- {} programs", progs.len());
@@ -948,7 +1022,7 @@ fn main() {
     }
     let _ = writeln!(src, "pub static PROGS: &[ProgInfo] = &[");
     for po in &progs {
-        let desc = po.b.desc_lines().join("\n");
+        let desc = po.desc_override.clone().unwrap_or_else(|| po.b.desc_lines()).join("\n");
         let (pl, vrun, vdesc) = match &po.variant {
             Some((ls, v)) => (ls.join("\n"), format!("Some(run_{}_v)", po.name), v.desc_lines().join("\n")),
             None => (String::new(), "None".into(), String::new()),
@@ -958,7 +1032,7 @@ fn main() {
         ops.dedup();
         let _ = writeln!(
             src,
-            "    ProgInfo {{ name: {}, kind: {}, nsrc: {}, nsink: {}, desc: {}, perturb: {}, vdesc: {}, oracle: {}, ops: {}, run: run_{}, vrun: {} }},",
+            "    ProgInfo {{ name: {}, kind: {}, nsrc: {}, nsink: {}, desc: {}, perturb: {}, vdesc: {}, oracle: {}, ops: {}, src: {}, vsrc: {}, run: run_{}, vrun: {} }},",
             rust_str(&po.name),
             rust_str(po.kind),
             po.b.nsrc,
@@ -968,11 +1042,14 @@ fn main() {
             rust_str(&vdesc),
             rust_str(&po.oracle),
             rust_str(&ops.join(",")),
+            rust_str(&po.b.body()),
+            rust_str(&po.variant.as_ref().map(|(_, v)| v.body()).unwrap_or_default()),
             po.name,
             vrun
         );
     }
     let _ = writeln!(src, "];");
+    println!("cargo:warning=hv_dfir corpus: {} programs, {} with variants", progs.len(), progs.iter().filter(|p| p.variant.is_some()).count());
     let out = std::path::PathBuf::from(std::env::var("OUT_DIR").unwrap()).join("corpus.rs");
     std::fs::write(&out, src).unwrap();
     // a copy for inspection
